@@ -67,6 +67,7 @@ type Op struct {
 	Key         string            `json:"key,omitempty"`
 	Body        []byte            `json:"body"` // raw bytes of the body (JSON text for JSON ops); an empty non-nil body is still a body
 	BodyNil     bool              `json:"bodyNil,omitempty"`
+	Legacy      bool              `json:"legacy,omitempty"` // KWriteTomb through the older single-xattr entry point UpdateXattrDeleteBody
 	Exp         uint32            `json:"exp,omitempty"`
 	Preserve    bool              `json:"preserve,omitempty"`
 	CasClass    string            `json:"casClass,omitempty"`
@@ -116,6 +117,9 @@ func (o *Op) Variant() string {
 	case KWriteTomb:
 		if o.DelBody {
 			sb.WriteString("+delbody")
+		}
+		if o.Legacy {
+			sb.WriteString("+legacy")
 		}
 	case KWriteWX:
 		if o.BodyNil {
@@ -416,6 +420,17 @@ func Exec(b *rosmar.Bucket, c *rosmar.Collection, o *Op) (res Result) {
 		res.CasOut, err = c.WriteWithXattrs(ctx, o.Key, o.Exp, o.Cas, v, xarg(o), o.xdelArg(), mutateOpts(o, false))
 	case KWriteTomb:
 		res.HasCas = true
+		if o.Legacy && len(o.X) == 1 && len(o.XDel) == 0 && !o.DelBody && !o.BadJSONX {
+			// the same write through UpdateXattrDeleteBody (one xattr, handed over as a parsed value)
+			for name, val := range o.X {
+				var pv any
+				if json.Unmarshal([]byte(val), &pv) != nil {
+					pv = json.RawMessage(val)
+				}
+				res.CasOut, err = c.UpdateXattrDeleteBody(ctx, o.Key, name, o.Exp, o.Cas, pv, mutateOpts(o, false))
+			}
+			break
+		}
 		res.CasOut, err = c.WriteTombstoneWithXattrs(ctx, o.Key, o.Exp, o.Cas, xarg(o), o.xdelArg(), o.DelBody, mutateOpts(o, false))
 	case KWriteRes:
 		res.HasCas = true
